@@ -221,6 +221,44 @@ theorem loop_up1' (s : List Int) (g : Int → σ → Ctl σ ρ) (a k : Nat) (ha 
 theorem take_pred_reverse {α} (s : List α) : (s.take (s.length - 1)).reverse = s.reverse.tail := by
   rw [List.tail_reverse, List.dropLast_eq_take]
 
+/-! ### bit operators on non-negative values -/
+
+theorem iand_natCast (a b : Nat) : GoVal.iand (a : Int) (b : Int) = ((a &&& b : Nat) : Int) := by
+  unfold GoVal.iand
+  have h1 : (a : Int) ≥ 0 := Int.natCast_nonneg a
+  have h2 : (b : Int) ≥ 0 := Int.natCast_nonneg b
+  simp only [h1, h2, if_true, Int.toNat_natCast]
+  rfl
+
+theorem ishr_natCast (a k : Nat) : GoVal.ishr (a : Int) (k : Int) = ((a >>> k : Nat) : Int) := by
+  unfold GoVal.ishr
+  simp only [Int.toNat_natCast]
+  rfl
+
+theorem ishl_natCast (a k : Nat) : GoVal.ishl (a : Int) (k : Int) = ((a <<< k : Nat) : Int) := by
+  unfold GoVal.ishl
+  simp only [Int.toNat_natCast]
+  rfl
+
+theorem wrap_natCast (bits n : Nat) : wrap bits (n : Int) = ((n % 2 ^ bits : Nat) : Int) := by
+  unfold wrap
+  rw [Int.natCast_emod, Int.natCast_pow]; rfl
+
+theorem tdiv_natCast (a b : Nat) : Int.tdiv (a : Int) (b : Int) = ((a / b : Nat) : Int) := rfl
+theorem tmod_natCast (a b : Nat) : Int.tmod (a : Int) (b : Int) = ((a % b : Nat) : Int) := (Int.ofNat_tmod a b).symm
+
+/-- `idx` of a list of naturals read as Go integers = the model's checked read -/
+theorem idx_bytes (ws : List Nat) (i : Nat) :
+    idx (ws.map Int.ofNat) (i : Int) =
+      match ws[i]? with
+      | some w => .ok (w : Int)
+      | none => .error oob := by
+  by_cases h : i < ws.length
+  · rw [idx_ofNat _ _ (by simpa using h)]
+    simp [h]
+  · rw [idx_ge _ _ (by simp; omega)]
+    simp [List.getElem?_eq_none (by omega : ws.length ≤ i)]
+
 /-! ### byte strings -/
 
 /-- Go string / []byte argument built from a model byte list -/
